@@ -3,7 +3,7 @@
    Model: Discover/Naming.v (device-name construction of probe, HostnamePrefix),
           Discover/Run.v (makeDeviceMap, ipWorker, probe's blocking structure over abstract timers). *)
 From Coq Require Import String Ascii NArith List.
-From LLRP Require Import Discover.Naming Discover.NamingProofs Discover.Run Discover.RunProofs.
+From LLRP Require Import Discover.Naming Discover.NamingProofs Discover.Run Discover.RunProofs Discover.Config Discover.ConfigProofs.
 Import ListNotations.
 Open Scope N_scope.
 
@@ -224,3 +224,50 @@ Example C17_example_chatty :
   probe_time (mk_timers 300 (Some 300) 20000 false) (Script (host ok (Ans 0 false) [] None)) = Some 300 /\
   probe_time (mk_timers 300 (Some 300) 20000 false) (Script (host ok NoAns [] None)) = Some 300.
 Proof. vm_compute. repeat split; try reflexivity. eexists; reflexivity. Qed.
+
+(* ---- "its CONFIGURED maximum duration": which configuration? ----
+   Discover/Config.v: the service starts with a configuration c0; then, in any order and any number, the
+   configuration provider delivers writable sections (updateWritableConfig), values of another type arrive and are
+   ignored, and discovery runs start. For ALL such histories: *)
+
+(* the configuration in force is the last one delivered (the start-up one if none was) *)
+Theorem C17_config_in_force_is_last_delivered : forall c0 evs, in_force (crun c0 evs) = last_delivered c0 evs.
+Proof. exact in_force_last_delivered. Qed.
+Print Assumptions C17_config_in_force_is_last_delivered.
+
+(* every run uses the configuration last delivered before it started — every setting of it: subnets, worker
+   limit, probe timeout, scan port, maximum duration *)
+Theorem C17_run_uses_last_delivered_config : forall c0 evs,
+  used (crun c0 (evs ++ [Discover])) = last_delivered c0 evs :: used (crun c0 evs).
+Proof. exact run_uses_last_delivered. Qed.
+Print Assumptions C17_run_uses_last_delivered_config.
+
+(* in particular a section delivered at run time and not superseded governs the next run, whatever the history
+   before it and whatever runs / ignored deliveries lie in between *)
+Theorem C17_delivered_config_governs_next_run : forall c0 evs c evs',
+  (forall c', ~ In (Deliver c') evs') ->
+  used (crun c0 (evs ++ Deliver c :: evs' ++ [Discover])) = c :: used (crun c0 (evs ++ Deliver c :: evs')).
+Proof. exact delivered_then_used. Qed.
+Print Assumptions C17_delivered_config_governs_next_run.
+
+(* and the maximum duration that cuts the run off is the one last delivered: the run's context gets the deadline
+   1000 ms x that value (none for 0), and no dial begins at or after it *)
+Theorem C17_run_deadline_from_config : forall c,
+  (c_max_s c = 0 -> run_deadline c = None) /\ (c_max_s c <> 0 -> run_deadline c = Some (1000 * c_max_s c)).
+Proof. exact run_deadline_spec. Qed.
+Print Assumptions C17_run_deadline_from_config.
+
+Theorem C17_run_obeys_last_delivered_maximum : forall c0 evs tm m hosts work t,
+  let c := last_delivered c0 evs in
+  c_max_s c <> 0 ->
+  In t (run_dial_times tm (1000 * c_max_s c) m (c_port c) hosts work) -> t < 1000 * c_max_s c.
+Proof. exact run_obeys_last_delivered_maximum. Qed.
+Print Assumptions C17_run_obeys_last_delivered_maximum.
+
+Example C17_example_config_history :
+  let c0 := mk_config (str "10.0.0.0/24") 4 2 5084 300 in        (* as shipped: five minutes *)
+  let c1 := mk_config (str "10.0.0.0/24") 4 2 5084 0 in          (* no limit *)
+  let c2 := mk_config (str "10.0.0.0/16") 50 1 5085 2 in         (* everything changed, two seconds *)
+  used (crun c0 [Discover; Deliver c1; DeliverOther; Discover; Deliver c1; Deliver c2; Discover; DeliverOther; Discover]) = [c2; c2; c1; c0] /\
+  run_deadline c0 = Some 300000 /\ run_deadline c1 = None /\ run_deadline c2 = Some 2000.
+Proof. vm_compute. repeat split; reflexivity. Qed.
